@@ -40,15 +40,44 @@ def run(ctx):
         mism, summ, _ = vlib.run_cases(ctx, drv, ["-workers", str(vlib.NCPU)], cf, label=label, chunk=200000, timeout=3400)
         for k in tot:
             tot[k] += summ[k]
+        if label in ("edges", "sim"):
+            # the same schedules once more with 250 one-byte entries per cache in a generation of their own: the first
+            # cleanup that retires it shrinks the payload map by > 90 % and Cache.recreatePayload copies the map
+            # (an implementation step the model does not have: it must not change anything the invariants see)
+            mism2, summ2, _ = vlib.run_cases(ctx, drv, ["-workers", str(vlib.NCPU), "-fillers", "250"], cf, label=label + "-fill", chunk=200000, timeout=3400)
+            for k in tot:
+                tot[k] += summ2[k]
+            for m in mism2:
+                m["fillers"] = 250
+            mism = list(mism) + list(mism2)
         for m in mism:
             w_ = str(m.get("what"))
             import re
-            ctx.violation("cache:%s:%s" % (label, re.sub(r"[0-9]+", "N", w_)[:60]), m,
+            ctx.violation("cache:%s%s:%s" % (label, "-fill" if m.get("fillers") else "", re.sub(r"[0-9]+", "N", w_)[:60]), m,
                           what="real cache state violates a Cache.tla invariant: " + w_[:200])
         with open(cf) as fh:
             for i, ln in enumerate(fh):
                 if i % 5003 == 77 and len(ctx.cov["samples"]) < 3:
                     ctx.cov["samples"].append(json.loads(ln))
+    # registration of a new cache while the cleaner rotates (CacheRegister.tla): atomic in the design, the split
+    # variant must violate FollowsLast; on the real cleaner the rotation is attempted in the middle of AddBucket
+    r = vlib.run_tlc(ctx, "CacheRegister.tla", "CacheRegister.cfg", tags=("NOCASE",), timeout=1200)
+    if r.violated:
+        raise vlib.Infra("TLC: %s violated in CacheRegister.tla" % r.violated)
+    vlib.require_tlc_ok(r, "CacheRegister")
+    r = vlib.run_tlc(ctx, "CacheRegister.tla", "CacheRegister_split.cfg", tags=("NOCASE",), timeout=1200, quiet=True)
+    if r.violated != "FollowsLast":
+        raise vlib.Infra("vacuity guard: CacheRegister_split.cfg should violate FollowsLast, TLC says %s" % r.violated)
+    rc, outs, err = vlib.run_driver(drv, ["-register", "6" if quick else "60"], timeout=1200)
+    for o in outs:
+        if o.get("infra"):
+            raise vlib.Infra("cachedrv -register: " + str(o["infra"]))
+        if o.get("summary"):
+            for k in tot:
+                tot[k] += int(o.get(k, 0))
+        elif "what" in o:
+            import re
+            ctx.violation("cache:register:%s" % re.sub(r"[0-9]+", "N", str(o["what"]))[:70], o, what=str(o["what"]))
     ctx.cov["traces_validated_against_impl"] = tot["cases"]
     ctx.cov["evaluations"] = tot["evals"]
     ctx.cov["distinct_nontrivial"] = tot["nontrivial"]
@@ -56,7 +85,8 @@ def run(ctx):
     ctx.cov["rule"] = ("schedule = sequence of get(caller, cache, key) / loader-ok / loader-fail (error or panic) / rotate / cleanup / clean-empty-generations / "
                        "release(cache) / release-buckets; exhaustive: one schedule per transition of the as-is model's reduced state graph (<=6, thorough <=8 operations; "
                        "2 caches x 2 keys x 2 callers; 3 caches x 1 key for the release logic); simulation: 3 caches, 2 keys, 3 callers, 14 operations. "
-                       "evaluations = quiescent points at which the invariants were evaluated on the real cache; non-trivial = schedules of > 3 operations")
+                       "the 'edges' and 'sim' schedules are replayed a second time with 250 one-byte entries per cache in a generation of their own (payload map re-creation); "
+                       "registration of a new cache against a rotation is forced on the real cleaner (CacheRegister.tla). evaluations = quiescent points at which the invariants were evaluated on the real cache; non-trivial = schedules of > 3 operations")
     ctx.assumptions += ["Cache.Release is only called when no caller is inside that cache (the fractions guarantee it with their useMu)",
                         "the window between publishing an entry and accounting it (two steps in the pinned save) cannot be forced from outside; after the fix both happen under the lock",
                         "sizes: one model unit = 1 MiB of referenced memory, limit 0.5 MiB, so per-entry overhead never flips a comparison"]
